@@ -19,6 +19,7 @@ type Variant struct {
 	TCP            bool   `json:"tcp"`
 	MayPass        bool   `json:"may_pass"`         // lenient-right shape: either outcome is accepted
 	PrimeSameRoute bool   `json:"prime_same_route"` // history phase: also sent right after the right credentials on the same route
+	PathVariants   bool   `json:"path_variants"`    // class representative: also sent to the path variants of every route
 
 	Combos      []int `json:"combos"`       // request-header combinations sent with this value (indexes into Config.Combos)
 	TCPCombos   []int `json:"tcp_combos"`   // ... also through main()'s real listener
@@ -194,6 +195,7 @@ func Alphabet(login, pass string, thorough bool) []Variant {
 		v.Class = classify(v.Absent, v.Header, login, pass)
 		v.MayPass = v.Class == clsLenient
 		v.PrimeSameRoute = v.Family == "same_length_undecodable" || fullProductReps[v.ID]
+		v.PathVariants = fullProductReps[v.ID]
 		switch v.Class {
 		case clsRight:
 			v.Phase = "allow"
